@@ -193,6 +193,18 @@ def gen_api(rng):
         hist.append(('bind', bid, rng.choice(fv), rng.choice(CONST)))
         open_b.append(bid)
         c['bound_after_assert'] = 1
+    if rng.random() < 0.35:
+        # the host program uses the term as a template: the SAME term (same object, see history.py) is asserted
+        # again under the bindings of this moment, and once more after they changed again
+        hist.append(('assert_fact', fact, True))
+        c['same_term_asserted_again'] = 1
+        if open_b and rng.random() < 0.6:
+            hist.append(('unbind', open_b.pop()))
+            if fv and not open_b and rng.random() < 0.7:
+                bid += 1
+                hist.append(('bind', bid, rng.choice(fv), rng.choice(CONST + [C('f', A('b'))])))
+                open_b.append(bid)
+            hist.append(('assert_fact', fact, rng.random() < 0.5))
     r = rng.random()
     uv = [V('R%d' % i) for i in range(4)]
     if r < 0.2:
